@@ -1746,10 +1746,32 @@ def rule_d5(a, writes):
         if stored:
             n_store += 1
             leak_possible = not (https is False or http is False)
-            if any(_utxt(val) != rec + '.parent_url' for _, val in stored):
-                leak_possible = True        # the URL sent is not the one whose scheme was tested
+            # user information: the parent's normal form carries `user:password@` when the page was fetched with credentials in its
+            # URL; sent as Referer they reach every host the page links to (RFC 7231 5.5.2: no userinfo in Referer).  The value is
+            # either the parent URL under a test that it has no user information, or it is put together from the parts that have none
+            no_userinfo = any(k[0] == 'T' and tv is False and re.match(r'^%s\.parent_url_info\.(userinfo|username|password)$' % re.escape(rec), k[1])
+                              for k, tv in v.items()) or any(k[0] == 'in' and tv is False and k[1] == "'@'" for k, tv in v.items())
+            cred = False
+            for _, val in stored:
+                vt = _utxt(val)
+                if vt == rec + '.parent_url':
+                    if not no_userinfo:
+                        cred = True
+                    continue
+                try:
+                    ve = ast.parse(vt, mode='eval').body
+                except SyntaxError:
+                    leak_possible = True
+                    continue
+                attrs = [x for x in ast.walk(ve) if isinstance(x, ast.Attribute) and norm_text(x.value) in (rec + '.parent_url_info', rec)]
+                allowed = {'scheme', 'hostname_with_port', 'path', 'query', 'parent_url_info'}
+                if not attrs or any(x.attr not in allowed for x in attrs):
+                    leak_possible = True        # the URL sent is not the one whose scheme was tested / may carry user information
             ck.expect(not leak_possible, R, ar.qual, 'Referer stored when ' + desc,
                       'the referrer of an https page can be sent with an http request (RFC 7231 5.5.2)', ar.loc())
+            ck.expect(not cred, R, ar.qual, 'Referer without user information when ' + desc,
+                      'the Referer value is the parent page\'s normal form, which includes `user:password@` when the page was fetched with '
+                      'credentials in its URL: they are sent to every host that page links to', ar.loc())
         else:
             ck.ok(R, ar.qual, 'no Referer when ' + desc)
     if n_store == 0:
